@@ -17,7 +17,10 @@ pub fn check(w: &J) -> Result<(), String> {
     // every panic on the write side, still count for the property whose oracle exercises them.)
     if matches!(prop.as_str(), "C08" | "C09" | "C10" | "C11" | "C12" | "C13" | "C15" | "C18" | "C19") && w.str("kind") == "bytes" {
         let d = w.bytes("bytes");
-        if catch_unwind(AssertUnwindSafe(|| crate::touch::parse_entry_points(&d))).is_err() {
+        crate::IN_PARSE_PRECHECK.store(1, std::sync::atomic::Ordering::SeqCst);
+        let pre = catch_unwind(AssertUnwindSafe(|| crate::touch::parse_entry_points(&d, prop == "C11")));
+        crate::IN_PARSE_PRECHECK.store(0, std::sync::atomic::Ordering::SeqCst);
+        if pre.is_err() {
             return Ok(());
         }
     }
